@@ -333,6 +333,9 @@ impl WorldA {
             c.set_connected();
             c
         };
+        // reference event queue (C12): every insertion is owed exactly one connect event, in order
+        self.api.expected.push_back(apply::ExpEvent { connected: true, id, reason: None });
+        self.api.sv_first_reason.insert(id, None);
         let c = &mut self.conns[i];
         c.present = true;
         c.local = local;
@@ -552,6 +555,8 @@ pub fn gen_cfg(family: &str, rng: &mut Rng) -> Cfg {
             cfg.set("start_absent", rng.below(1 << ncl));
             cfg.set("tele_seq", 0);
             cfg.set("tele_mid", 0);
+            // an application that polls server events once per tick instead of after every call
+            cfg.set("evlazy", *rng.pick(&[0u64, 0, 1]));
         }
         _ => {}
     }
